@@ -3,6 +3,7 @@ package fn
 import (
 	"errors"
 	"fmt"
+	"math"
 	"github.com/flowmatters/openwater-core/data"
 )
 
@@ -55,6 +56,10 @@ func Piecewise(x float64, xs, ys data.ND1Float64) (y float64, err error) {
 	idx[0] = j
 	y1 := ys.Get(idx)
 	y = y0 + frac * (y1-y0)
+	if frac == 1.0 {
+		y = y1 // exact table value at the upper knot
+	}
+	y = math.Max(math.Min(y0, y1), math.Min(math.Max(y0, y1), y))
 	return
 }
 
